@@ -4,6 +4,9 @@ export PATH=/opt/veriftools/go1.26.8/bin:$PATH GOFLAGS=-mod=mod GOPROXY=off GOSU
 export GOCACHE=${GOCACHE:-/verif/.cache/go-build}
 cd /verif || exit 2
 mkdir -p .bin .build .cache evidence replays
+# the Go build cache grows with every distinct tree that is built (30 GB after the campaign of
+# deliberately broken trees): keep it bounded, a rebuild from nothing takes under two minutes
+if [ -d .cache/go-build ] && [ "$(du -sm .cache/go-build 2>/dev/null | cut -f1)" -gt 4096 ]; then rm -rf .cache/go-build; fi
 (cd engine && go build -o ../.bin/driver ./driver && go build -o ../.bin/xform ./xform) || exit 2
 engine/build.sh >/dev/null || exit 2
 echo "setup ok"
